@@ -492,8 +492,15 @@ func c13HubHistory(r *ev.Run, g *rng.R, caseID string, kind hubKind) {
 	if res.concCancel && res.delivered > 0 {
 		r.NonTrivial(name + "/" + res.shape[:8])
 	}
-	r.Sample(map[string]any{"case": caseID, "hub": name, "producers": nProd, "receivers": nRecv, "closed_mid_run": doClose, "callbacks_run": res.delivered, "history_head": h.dump(1 << 30)[:14]})
+	r.Sample(map[string]any{"case": caseID, "hub": name, "producers": nProd, "receivers": nRecv, "closed_mid_run": doClose, "callbacks_run": res.delivered, "history_head": headN(h.dump(1<<30), 14)})
 	r.Count(name+"_callbacks", int64(res.delivered))
+}
+
+func headN(s []string, n int) []string {
+	if len(s) > n {
+		return s[:n]
+	}
+	return s
 }
 
 func max0(n int) int {
@@ -833,8 +840,138 @@ func c13SwarmCancel(r *ev.Run, g *rng.R, caseID string, which string, pre bool) 
 	r.NonTrivial(shape)
 }
 
+// c13ChurnNoLoss: several receivers on one swarm keep calling Receive with contexts that are cancelled at random moments and
+// call again at once; a sender on the same (loss-free: loopback / in-memory) transport tells numbered messages one at a time.
+// Every message must reach exactly one callback: a message may not vanish because the receiver that picked it up had just
+// been cancelled, and may not be handed out twice.
+func c13ChurnNoLoss(r *ev.Run, g *rng.R, caseID, which string) {
+	var recv func(ctx context.Context, fn func([]byte)) error
+	var tell func(ctx context.Context, b []byte) error
+	var closer func()
+	switch which {
+	case "udp":
+		d, err := udpswarm.New("127.0.0.1:0")
+		if err != nil {
+			r.Inconclusive("udp listen: " + err.Error())
+			return
+		}
+		s, err := udpswarm.New("127.0.0.1:0")
+		if err != nil {
+			d.Close()
+			r.Inconclusive("udp listen: " + err.Error())
+			return
+		}
+		dst := d.LocalAddrs()[0]
+		recv = func(ctx context.Context, fn func([]byte)) error {
+			return d.Receive(ctx, func(m p2p.Message[udpswarm.Addr]) { fn(m.Payload) })
+		}
+		tell = func(ctx context.Context, b []byte) error { return s.Tell(ctx, dst, p2p.IOVec{b}) }
+		closer = func() { d.Close(); s.Close() }
+	default:
+		realm := memswarm.NewRealm(memswarm.WithQueueLen(64))
+		d, s := realm.NewSwarm(), realm.NewSwarm()
+		dst := d.LocalAddrs()[0]
+		recv = func(ctx context.Context, fn func([]byte)) error {
+			return d.Receive(ctx, func(m p2p.Message[memAddr]) { fn(m.Payload) })
+		}
+		tell = func(ctx context.Context, b []byte) error { return s.Tell(ctx, dst, p2p.IOVec{b}) }
+		closer = func() { d.Close(); s.Close() }
+	}
+	defer closer()
+	const R = 4
+	N := pick(r, 150, 1500)
+	var mu sync.Mutex
+	seen := map[uint32]int{}
+	var got atomic.Int64
+	stop := make(chan struct{})
+	var wg sync.WaitGroup
+	for w := 0; w < R; w++ {
+		lg := g.Fork()
+		wg.Add(1)
+		go func() {
+			defer wg.Done()
+			for {
+				select {
+				case <-stop:
+					return
+				default:
+				}
+				ctx, cf := context.WithCancel(context.Background())
+				tm := time.AfterFunc(time.Duration(lg.Intn(4000))*time.Microsecond, cf)
+				recv(ctx, func(p []byte) {
+					if len(p) == 8 && string(p[:4]) == "C13n" {
+						id := binary.BigEndian.Uint32(p[4:])
+						mu.Lock()
+						seen[id]++
+						mu.Unlock()
+						got.Add(1)
+					}
+				})
+				tm.Stop()
+				cf()
+			}
+		}()
+	}
+	sent := 0
+	bg := context.Background()
+	for i := 0; i < N; i++ {
+		b := make([]byte, 8)
+		copy(b, "C13n")
+		binary.BigEndian.PutUint32(b[4:], uint32(i))
+		before := got.Load()
+		if tell(bg, b) != nil {
+			continue
+		}
+		sent++
+		// one at a time: wait (briefly) until somebody has it, so that nothing is ever dropped for want of buffer space
+		for w := 0; w < 300 && got.Load() == before; w++ {
+			time.Sleep(100 * time.Microsecond)
+		}
+	}
+	// drain: until everything sent has been seen or nothing has arrived for a while
+	last, quiet := got.Load(), 0
+	for quiet < 200 && got.Load() < int64(sent) {
+		time.Sleep(5 * time.Millisecond)
+		if cur := got.Load(); cur == last {
+			quiet++
+		} else {
+			last, quiet = cur, 0
+		}
+	}
+	close(stop)
+	closer()
+	wg.Wait()
+	r.Eval(int64(sent))
+	mu.Lock()
+	defer mu.Unlock()
+	missing, twice := 0, 0
+	for i := 0; i < N; i++ {
+		switch c := seen[uint32(i)]; {
+		case c == 0:
+			missing++
+		case c > 1:
+			twice++
+		}
+	}
+	missing -= N - sent
+	det := map[string]any{"transport": which, "sent": sent, "callbacks": got.Load(), "missing": missing, "handed_out_twice": twice, "receivers": R}
+	if twice > 0 {
+		r.Violate("C13/handed-to-two-receivers/"+which+"swarm", caseID, "a message was handed to more than one receiver callback", det)
+		return
+	}
+	switch {
+	case missing >= 2:
+		r.Violate("C13/lost-under-cancellation/"+which+"swarm", caseID, fmt.Sprintf("%d of %d messages sent one at a time over a loss-free transport never reached a callback while receivers' contexts were being cancelled", missing, sent), det)
+	case missing == 1:
+		r.Inconclusive("c13 churn: a single message missing on " + which)
+	default:
+		r.NonTrivial("churn-no-loss/" + which)
+	}
+	r.Count("churn_messages_"+which, int64(sent))
+}
+
 func runC13(r *ev.Run) {
-	r.Rule = "boundary-recorded histories (one atomic stamp counter; call stamped before invoking, return after returning) of TellHub, AskHub and Queue under 1-8 producers/receivers, per-call contexts (live, cancelled soon, pre-cancelled, deadline), optional close, and seeded yields/sleeps at hub hook points; checked offline against the rendezvous trace specification (exactly-one callback, success only after the callback finished, error only if no callback saw it, overlap, conservation, own-context errors), queue conservation and porcupine bag-with-capacity model; cancelled calls must not stay parked (two goroutine snapshots). non-trivial = a cancel/close concurrent with a Deliver and >=1 rendezvous; distinct = history-shape hash"
+	r.Rule = "boundary-recorded histories (one atomic stamp counter; call stamped before invoking, return after returning) of TellHub, AskHub and Queue under 1-8 producers/receivers, per-call contexts (live, cancelled soon, pre-cancelled, deadline), optional close, and seeded yields/sleeps at hub hook points; checked offline against the rendezvous trace specification (exactly-one callback, success only after the callback finished, error only if no callback saw it, overlap, conservation, own-context errors), queue conservation and porcupine bag-with-capacity model; cancelled calls must not stay parked (two goroutine snapshots); churn family: 4 receivers on one udp / in-memory swarm re-calling Receive with contexts cancelled every 0-4 ms while numbered messages are told one at a time: each must reach exactly one callback. non-trivial = a cancel/close concurrent with a Deliver and >=1 rendezvous; distinct = history-shape hash"
 	n := pick(r, 120, 4000)
 	g := rng.New(r.Seed, "C13", fmt.Sprint(r.Batch))
 	for i := 0; i < n; i++ {
@@ -861,6 +998,12 @@ func runC13(r *ev.Run) {
 			if r.Want(caseID) {
 				c13QueueHistory(r, cg, caseID, true)
 			}
+		}
+	}
+	for _, which := range []string{"udp", "mem"} {
+		caseID := fmt.Sprintf("churn-%s-%d", which, r.Batch)
+		if r.Want(caseID) {
+			c13ChurnNoLoss(r, g.Fork(), caseID, which)
 		}
 	}
 	for i := 0; i < pick(r, 3, 30); i++ {
